@@ -296,11 +296,11 @@ array-element target (`Unaff e` = "`e` reads no element of that array"). -/
 structure StoreStep (Γ : Ctx) (env env' : Env) (fs : List Expr) (lhs rhs : Expr) (v : Int)
     (Unaff : Expr → Prop) : Prop where
   envOk' : EnvOk Γ env'
-  lhsVal : evalI env' lhs = v
+  lhsVal : idxReads lhs = false → evalI env' lhs = v
   stable : ∀ e, wt Γ e → Unaff e → evalI env' e = evalI env e
-  keptU : ∀ f ∈ fs, mentions f lhs = false → Unaff f
-  rhsU : mentions rhs lhs = false → Unaff rhs
-  xrU : ∀ xop xr, Expr.binary xop lhs xr ∈ fs → mentions xr lhs = false → Unaff xr
+  keptU : ∀ f ∈ fs, mentionsLHS lhs f = false → Unaff f
+  rhsU : mentionsLHS lhs rhs = false → Unaff rhs
+  xrU : ∀ xop xr, Expr.binary xop lhs xr ∈ fs → mentionsLHS lhs xr = false → Unaff xr
 
 theorem assign_core {Γ : Ctx} {env env' : Env} {fs fs' : List Expr} {lhs rhs : Expr}
     {Unaff : Expr → Prop}
@@ -323,38 +323,38 @@ theorem assign_core {Γ : Ctx} {env env' : Env} {fs fs' : List Expr} {lhs rhs : 
         have hty : inType (typeOf lhs) (evalI env rhs) := fitsType_spec hfit hmem
         have T := st hty
         refine ⟨⟨hsl, hsafe, hty⟩, ?_⟩
-        -- the facts that survive `dropAnyFactsMentioning`
-        have h1 : FactsHold env' (dropMentioning fs lhs) := by
+        -- the facts that survive the assignment
+        have h1 : FactsHold env' (dropLHS fs lhs) := by
           intro f hf
-          simp only [dropMentioning, List.mem_filter, Bool.not_eq_true'] at hf
+          simp only [dropLHS, List.mem_filter, Bool.not_eq_true'] at hf
           rw [T.stable f (S.wtF f hf.1) (T.keptU f hf.1 hf.2)]
           exact S.holds f hf.1
-        have w1 : ∀ f ∈ dropMentioning fs lhs, wt Γ f := by
+        have w1 : ∀ f ∈ dropLHS fs lhs, wt Γ f := by
           intro f hf
-          simp only [dropMentioning, List.mem_filter] at hf
+          simp only [dropLHS, List.mem_filter] at hf
           exact S.wtF f hf.1
-        have c1 : ∀ f ∈ dropMentioning fs lhs, GoodFact f := by
+        have c1 : ∀ f ∈ dropLHS fs lhs, GoodFact f := by
           intro f hf
-          simp only [dropMentioning, List.mem_filter] at hf
+          simp only [dropLHS, List.mem_filter] at hf
           exact S.cmpF f hf.1
         split at h
         · cases h; exact ⟨T.envOk', h1, w1, c1⟩
         · -- numeric destination: `lhs == rhs` unless the RHS mentions the LHS
           have ceq : IsCmpFact (.binary .eq lhs rhs) := ⟨_, _, _, rfl, rfl⟩
           have s2 : FactsHold env'
-                (if mentions rhs lhs = true then dropMentioning fs lhs
-                 else appendFact (dropMentioning fs lhs) (.binary .eq lhs rhs)) ∧
-              (∀ f ∈ (if mentions rhs lhs = true then dropMentioning fs lhs
-                 else appendFact (dropMentioning fs lhs) (.binary .eq lhs rhs)), wt Γ f) ∧
-              (∀ f ∈ (if mentions rhs lhs = true then dropMentioning fs lhs
-                 else appendFact (dropMentioning fs lhs) (.binary .eq lhs rhs)), GoodFact f) := by
+                (if (mentionsLHS lhs rhs || idxReads lhs) = true then dropLHS fs lhs
+                 else appendFact (dropLHS fs lhs) (.binary .eq lhs rhs)) ∧
+              (∀ f ∈ (if (mentionsLHS lhs rhs || idxReads lhs) = true then dropLHS fs lhs
+                 else appendFact (dropLHS fs lhs) (.binary .eq lhs rhs)), wt Γ f) ∧
+              (∀ f ∈ (if (mentionsLHS lhs rhs || idxReads lhs) = true then dropLHS fs lhs
+                 else appendFact (dropLHS fs lhs) (.binary .eq lhs rhs)), GoodFact f) := by
             split
             · exact ⟨h1, w1, c1⟩
             · rename_i hm
-              simp only [Bool.not_eq_true] at hm
+              simp only [Bool.or_eq_true, not_or, Bool.not_eq_true] at hm
               have teq : evalI env' (.binary .eq lhs rhs) ≠ 0 := by
                 apply (evalI_cmp rfl _ _).2
-                simp only [cmpRel, T.lhsVal, T.stable rhs hwr (T.rhsU hm)]
+                simp only [cmpRel, T.lhsVal hm.2, T.stable rhs hwr (T.rhsU hm.1)]
               refine ⟨factsHold_appendFact ceq h1 teq, ?_, ?_⟩
               · intro f hfm
                 rcases mem_appendFact_cmp ceq hfm with h | h
@@ -367,9 +367,13 @@ theorem assign_core {Γ : Ctx} {env env' : Env} {fs fs' : List Expr} {lhs rhs : 
           obtain ⟨s2a, s2b, s2c⟩ := s2
           split at h
           · cases h; exact ⟨T.envOk', s2a, s2b, s2c⟩
-          · have hmem' : rb.mem (evalI env' lhs) := by rw [T.lhsVal]; exact hmem
-            obtain ⟨r1, r2, r3⟩ := boundFacts_sound hwl h hmem' s2a s2b s2c
-            exact ⟨T.envOk', r1, r2, r3⟩
+          · rename_i hir
+            simp only [Bool.not_eq_true] at hir
+            split at h
+            · cases h; exact ⟨T.envOk', s2a, s2b, s2c⟩
+            · have hmem' : rb.mem (evalI env' lhs) := by rw [T.lhsVal hir]; exact hmem
+              obtain ⟨r1, r2, r3⟩ := boundFacts_sound hwl h hmem' s2a s2b s2c
+              exact ⟨T.envOk', r1, r2, r3⟩
     · cases h
 
 theorem cmpRel_shift {xop : BOp} (hc : xop.isCmp = true) (a b e : Int) :
@@ -406,8 +410,8 @@ theorem rewriteFact_core {Γ : Ctx} {env env' : Env} {fs : List Expr} {op : BOp}
             evalI env' (.binary xop xl (simplifyBin op xr rhs)) ≠ 0 := by
           intro op' hop' hop
           apply (evalI_cmp hxc _ _).2
-          rw [evalI_simplifyBin (hop ▸ hop'), T.stable xr hw.2 (T.xrU xop xr hmem hm.1),
-            T.stable rhs hwr (T.rhsU hm.2), T.lhsVal]
+          rw [evalI_simplifyBin (hop ▸ hop'), T.stable xr hw.2 (T.xrU xop xr hmem hm.1.1),
+            T.stable rhs hwr (T.rhsU hm.1.2), T.lhsVal hm.2]
           have h0 := (evalI_cmp hxc _ _).1 hf
           simp only [evalI]
           subst hop
@@ -481,9 +485,13 @@ theorem opassign_core {Γ : Ctx} {env env' : Env} {fs fs' : List Expr} {op : BOp
           obtain ⟨s1a, s1b, s1c⟩ := s1
           split at h
           · cases h; exact ⟨T.envOk', s1a, s1b, s1c⟩
-          · have hmem' : nb.mem (evalI env' lhs) := by rw [T.lhsVal]; exact hmn'
-            obtain ⟨r1, r2, r3⟩ := boundFacts_sound hwl h hmem' s1a s1b s1c
-            exact ⟨T.envOk', r1, r2, r3⟩
+          · split at h
+            · cases h; exact ⟨T.envOk', s1a, s1b, s1c⟩
+            · rename_i hir
+              simp only [Bool.not_eq_true] at hir
+              have hmem' : nb.mem (evalI env' lhs) := by rw [T.lhsVal hir]; exact hmn'
+              obtain ⟨r1, r2, r3⟩ := boundFacts_sound hwl h hmem' s1a s1b s1c
+              exact ⟨T.envOk', r1, r2, r3⟩
     · cases h
 
 /-! ### variable targets -/
@@ -493,11 +501,11 @@ theorem storeStep_var {Γ : Ctx} {env : Env} {fs : List Expr} {n : String} {rhs 
     StoreStep Γ env (upd env n v) fs (.var n (Γ n)) rhs v
       (fun e => mentions e (.var n (Γ n)) = false) where
   envOk' := envOk_upd he hv
-  lhsVal := by simp [evalI, upd]
+  lhsVal := fun _ => by simp [evalI, upd]
   stable := fun e hw hu => evalI_upd v e hw hu
-  keptU := fun _ _ h => h
-  rhsU := fun h => h
-  xrU := fun _ _ _ h => h
+  keptU := fun _ _ h => by simpa [mentionsLHS] using h
+  rhsU := fun h => by simpa [mentionsLHS] using h
+  xrU := fun _ _ _ h => by simpa [mentionsLHS] using h
 
 theorem assign_sound {Γ : Ctx} {env : Env} {fs fs' : List Expr} {n : String} {rhs : Expr}
     (S : Situation Γ env fs) (hwr : wt Γ rhs)
@@ -539,64 +547,62 @@ theorem stmt_sound {Γ : Ctx} {env : Env} {fs fs' : List Expr} {s : Stmt}
 
 /-! ### array-element targets `a[i] = rhs`, `a[i] op= rhs`
 
-The checker drops only the facts that `Mention` the very expression `a[i]`.  That is
-sound only when nothing else it relies on reads the array through another index
-expression: `NoAlias`.  Without it the rule is unsound (`Props.C01.index_alias_witness`,
-KNOWN_FINDINGS false-fact:mentions-index:after-store-index). -/
+The (repaired) checker drops every fact that reads an element of `a` and records new
+facts about `a[i]` only when neither `i` nor the right-hand side read `a`
+(`mentionsLHS`, `idxReads`).  The unrepaired rule dropped only the facts that `Mention`
+the very expression `a[i]`: unsound (`Props.C01.index_alias_witness`). -/
 
-/-- no expression the checker keeps relying on after a store to `a[i]` reads the array
-`a` other than through the very expression `a[i]` -/
-structure NoAlias (fs : List Expr) (a : String) (lhs i rhs : Expr) : Prop where
-  idx : readsArr i a = false
-  kept : ∀ f ∈ fs, mentions f lhs = false → readsArr f a = false
-  rhsA : mentions rhs lhs = false → readsArr rhs a = false
-  xrA : ∀ xop xr, Expr.binary xop lhs xr ∈ fs → mentions xr lhs = false → readsArr xr a = false
+theorem mentionsLHS_index_false {a : String} {len : Nat} {ety : Ty} {i x : Expr}
+    (h : mentionsLHS (.index a len ety i) x = false) : readsArr x a = false := by
+  simp only [mentionsLHS, Bool.or_eq_false_iff] at h
+  exact h.2
 
 theorem storeStep_index {Γ : Ctx} {env : Env} {fs : List Expr} {a : String} {len : Nat}
     {i rhs : Expr} {v : Int}
-    (he : EnvOk Γ env) (hv : inType (Γ a) v) (na : NoAlias fs a (.index a len (Γ a) i) i rhs) :
+    (he : EnvOk Γ env) (hv : inType (Γ a) v) :
     StoreStep Γ env (updKey env (.cell a (evalI env i)) v) fs (.index a len (Γ a) i) rhs v
       (fun e => readsArr e a = false) where
   envOk' := envOk_updKey (key := .cell a (evalI env i)) he hv
   lhsVal := by
-    simp only [evalI, evalI_updCell _ _ i na.idx]
+    intro hir
+    simp only [idxReads] at hir
+    simp only [evalI, evalI_updCell _ _ i hir]
     simp [updKey]
   stable := fun e _ hu => evalI_updCell _ _ e hu
-  keptU := na.kept
-  rhsU := na.rhsA
-  xrU := na.xrA
+  keptU := fun _ _ h => mentionsLHS_index_false h
+  rhsU := fun h => mentionsLHS_index_false h
+  xrU := fun _ _ _ h => mentionsLHS_index_false h
 
-/-- a statement with an ARRAY-ELEMENT target -/
-def wtStore (Γ : Ctx) (fs : List Expr) : Stmt → Prop
-  | .assign lhs rhs =>
-    (∃ a len i, lhs = .index a len (Γ a) i ∧ wt Γ i ∧ NoAlias fs a lhs i rhs) ∧ wt Γ rhs
+/-- a statement with an ARRAY-ELEMENT target: the element type is the declared one, the
+index and the right-hand side are well-typed (numeric elements for an op-assignment) -/
+def wtStore (Γ : Ctx) : Stmt → Prop
+  | .assign lhs rhs => (∃ a len i, lhs = .index a len (Γ a) i ∧ wt Γ i) ∧ wt Γ rhs
   | .opAssign _ lhs rhs =>
-    (∃ a len i, lhs = .index a len (Γ a) i ∧ wt Γ i ∧ NoAlias fs a lhs i rhs ∧
-      (Γ a).base ≠ .bool) ∧ wt Γ rhs
+    (∃ a len i, lhs = .index a len (Γ a) i ∧ wt Γ i ∧ (Γ a).base ≠ .bool) ∧ wt Γ rhs
 
 /-- **store_sound**: an accepted store to an array element trips no monitor — in
-particular the index is within `[0, len)` — and, when nothing else the checker relies on
-reads that array (`NoAlias`), the situation it continues with holds afterwards. -/
+particular the index is within `[0, len)` — and the situation the checker continues
+with holds afterwards, whatever other elements of the array the store aliases. -/
 theorem store_sound {Γ : Ctx} {env : Env} {fs fs' : List Expr} {s : Stmt}
-    (S : Situation Γ env fs) (hw : wtStore Γ fs s) (h : checkStmt fs s = some fs') :
+    (S : Situation Γ env fs) (hw : wtStore Γ s) (h : checkStmt fs s = some fs') :
     stmtSafe env s ∧ Situation Γ (execStmt env s) fs' := by
   cases s with
   | assign lhs rhs =>
-    obtain ⟨⟨a, len, i, rfl, hwi, na⟩, hwr⟩ := hw
+    obtain ⟨⟨a, len, i, rfl, hwi⟩, hwr⟩ := hw
     have hexec : execStmt env (.assign (.index a len (Γ a) i) rhs) =
         updKey env (.cell a (evalI env i)) (evalI env rhs) := rfl
     rw [hexec]
     exact assign_core S ⟨rfl, hwi⟩ hwr h
-      (fun hty => storeStep_index S.envOk (by simpa [typeOf] using hty) na)
+      (fun hty => storeStep_index S.envOk (by simpa [typeOf] using hty))
   | opAssign op lhs rhs =>
-    obtain ⟨⟨a, len, i, rfl, hwi, na, hnum⟩, hwr⟩ := hw
+    obtain ⟨⟨a, len, i, rfl, hwi, hnum⟩, hwr⟩ := hw
     have hexec : execStmt env (.opAssign op (.index a len (Γ a) i) rhs) =
         updKey env (.cell a (evalI env i))
           (evalI env (.binary op (.index a len (Γ a) i) rhs)) := rfl
     rw [hexec]
     exact opassign_core S ⟨rfl, hwi⟩ hwr (by simpa [typeOf] using hnum)
       (fun _ => by simpa [typeOf, evalI, Key.name] using (S.envOk (.cell a (evalI env i))).1) h
-      (fun hty => storeStep_index S.envOk (by simpa [typeOf] using hty) na)
+      (fun hty => storeStep_index S.envOk (by simpa [typeOf] using hty))
 
 /-- the stores of an accepted statement never leave the array: the index monitor,
 with no aliasing hypothesis at all (only the situation BEFORE the statement) -/
@@ -637,12 +643,15 @@ def HoldsAlong (Γ : Ctx) : List Expr → Env → List Stmt → Prop
     Situation Γ env fs ∧ stmtSafe env s ∧
       ∃ fs1, checkStmt fs s = some fs1 ∧ HoldsAlong Γ fs1 (execStmt env s) ss
 
-/-- well-formedness of a block with both kinds of targets; the `NoAlias` side condition
-of an element store refers to the facts the checker holds just before it -/
-def wtBlock (Γ : Ctx) : List Expr → List Stmt → Prop
-  | _, [] => True
-  | fs, s :: ss =>
-    (wtStmt Γ s ∨ wtStore Γ fs s) ∧ ∀ fs1, checkStmt fs s = some fs1 → wtBlock Γ fs1 ss
+/-- a well-formed statement with either kind of target -/
+def wtStmtA (Γ : Ctx) (s : Stmt) : Prop := wtStmt Γ s ∨ wtStore Γ s
+
+theorem stmtA_sound {Γ : Ctx} {env : Env} {fs fs' : List Expr} {s : Stmt}
+    (S : Situation Γ env fs) (hw : wtStmtA Γ s) (h : checkStmt fs s = some fs') :
+    stmtSafe env s ∧ Situation Γ (execStmt env s) fs' := by
+  rcases hw with hv | hst
+  · exact stmt_sound S hv h
+  · exact store_sound S hst h
 
 theorem block_sound {Γ : Ctx} :
     ∀ (ss : List Stmt) (fs fs' : List Expr) (env : Env), Situation Γ env fs →
@@ -659,20 +668,10 @@ theorem block_sound {Γ : Ctx} :
       obtain ⟨hs, S1⟩ := stmt_sound S (hw s List.mem_cons_self) h1
       exact ⟨S, hs, fs1, h1, ih fs1 fs' _ S1 (fun t ht => hw t (List.mem_cons_of_mem _ ht)) h⟩
 
-theorem wtBlock_of_wtStmt {Γ : Ctx} :
-    ∀ (ss : List Stmt), (∀ s ∈ ss, wtStmt Γ s) → ∀ fs, wtBlock Γ fs ss := by
-  intro ss
-  induction ss with
-  | nil => intro _ _; trivial
-  | cons s ss ih =>
-    intro hw fs
-    exact ⟨Or.inl (hw s List.mem_cons_self),
-      fun fs1 _ => ih (fun t ht => hw t (List.mem_cons_of_mem _ ht)) fs1⟩
-
 /-- blocks with variable and array-element targets -/
 theorem block_sound_arr {Γ : Ctx} :
     ∀ (ss : List Stmt) (fs fs' : List Expr) (env : Env), Situation Γ env fs →
-      wtBlock Γ fs ss → checkBlock fs ss = some fs' → HoldsAlong Γ fs env ss := by
+      (∀ s ∈ ss, wtStmtA Γ s) → checkBlock fs ss = some fs' → HoldsAlong Γ fs env ss := by
   intro ss
   induction ss with
   | nil => intro fs fs' env S _ _; exact S
@@ -682,11 +681,7 @@ theorem block_sound_arr {Γ : Ctx} :
     split at h
     · cases h
     · rename_i fs1 h1
-      obtain ⟨hw1, hw2⟩ := hw
-      have step : stmtSafe env s ∧ Situation Γ (execStmt env s) fs1 := by
-        rcases hw1 with hv | hst
-        · exact stmt_sound S hv h1
-        · exact store_sound S hst h1
-      exact ⟨S, step.1, fs1, h1, ih fs1 fs' _ step.2 (hw2 fs1 h1) h⟩
+      obtain ⟨hs, S1⟩ := stmtA_sound S (hw s List.mem_cons_self) h1
+      exact ⟨S, hs, fs1, h1, ih fs1 fs' _ S1 (fun t ht => hw t (List.mem_cons_of_mem _ ht)) h⟩
 
 end WuffsVerif.Proof.WCoreStmt
